@@ -404,6 +404,102 @@ Proof.
       * exact H3.
 Qed.
 
+Lemma index_from_OInt l x : forall i k,
+  index_from l x i = OInt k -> i <= k /\ nth_error l (Z.to_nat (k - i)) = Some x.
+Proof.
+  induction l as [|y r IH]; intros i k; simpl; [discriminate|].
+  destruct (Z.eqb_spec y x) as [->|Hne].
+  - intros E. injection E as <-. rewrite Z.sub_diag. simpl. split; [lia|reflexivity].
+  - intros E. destruct (IH (i + 1) k E) as [Hle Hn]. split; [lia|].
+    replace (Z.to_nat (k - i)) with (S (Z.to_nat (k - (i + 1)))) by lia. exact Hn.
+Qed.
+
+Lemma index_from_In l x : forall i, In x l -> exists k, index_from l x i = OInt k.
+Proof.
+  induction l as [|y r IH]; intros i Hin; simpl; [destruct Hin|].
+  destruct (Z.eqb_spec y x) as [->|Hne]; [eauto|].
+  destruct Hin as [->|Hin]; [congruence|]. apply IH. exact Hin.
+Qed.
+
+Lemma index_from_total l x : forall i, (exists k, index_from l x i = OInt k) \/ index_from l x i = OErr ValueError.
+Proof.
+  induction l as [|y r IH]; intros i; simpl; [right; reflexivity|].
+  destruct (Z.eqb y x); [left; eauto|apply IH].
+Qed.
+
+Lemma nth_error_skipn_add (l : list Z) : forall a j, nth_error (skipn a l) j = nth_error l (a + j).
+Proof.
+  induction l as [|y r IH]; intros a j.
+  - rewrite skipn_nil. destruct j, a; reflexivity.
+  - destruct a as [|a]; simpl; [reflexivity|apply IH].
+Qed.
+
+Lemma nth_error_firstn_lt (l : list Z) : forall m j, (j < m)%nat -> nth_error (firstn m l) j = nth_error l j.
+Proof.
+  induction l as [|y r IH]; intros m j Hj.
+  - rewrite firstn_nil. reflexivity.
+  - destruct m as [|m]; [lia|]. destruct j as [|j]; simpl; [reflexivity|]. apply IH. lia.
+Qed.
+
+Lemma nth_error_window (l : list Z) a m j x :
+  nth_error (firstn m (skipn a l)) j = Some x <-> (j < m)%nat /\ nth_error l (a + j) = Some x.
+Proof.
+  split.
+  - intros H. assert (Hj : (j < m)%nat).
+    { destruct (Nat.lt_ge_cases j m) as [Hlt|Hge]; [exact Hlt|].
+      assert (nth_error (firstn m (skipn a l)) j = None) as E; [|congruence].
+      apply nth_error_None. etransitivity; [apply firstn_le_length|exact Hge]. }
+    split; [exact Hj|]. rewrite nth_error_firstn_lt in H by exact Hj. rewrite nth_error_skipn_add in H. exact H.
+  - intros [Hj H]. rewrite nth_error_firstn_lt by exact Hj. rewrite nth_error_skipn_add. exact H.
+Qed.
+
+Lemma norm_start_nonneg n s : 0 <= n -> 0 <= norm_start n s.
+Proof. unfold norm_start. intros Hn. destruct (Z.ltb_spec s 0); lia. Qed.
+
+(* Sequence.index with bounds: a result lies in the normalised window and holds the value *)
+Theorem index_range_sound l x start stop p :
+  index_range l x start stop = OInt p ->
+  norm_start (len l) start <= p < norm_stop (len l) stop /\ nth_error l (Z.to_nat p) = Some x.
+Proof.
+  unfold index_range. intros E.
+  pose proof (norm_start_nonneg (len l) start ltac:(unfold len; lia)) as Ha.
+  apply index_from_OInt in E. destruct E as [Hle Hn].
+  apply nth_error_window in Hn. destruct Hn as [Hj Hn].
+  split; [lia|]. replace (Z.to_nat p) with (Z.to_nat (norm_start (len l) start) + Z.to_nat (p - norm_start (len l) start))%nat by lia.
+  exact Hn.
+Qed.
+
+(* ... and a value that occurs inside the window is found *)
+Theorem index_range_complete l x start stop p :
+  norm_start (len l) start <= p < norm_stop (len l) stop -> nth_error l (Z.to_nat p) = Some x ->
+  exists q, index_range l x start stop = OInt q.
+Proof.
+  unfold index_range. intros Hp Hn.
+  pose proof (norm_start_nonneg (len l) start ltac:(unfold len; lia)) as Ha.
+  apply index_from_In. eapply nth_error_In.
+  apply (nth_error_window l _ _ (Z.to_nat (p - norm_start (len l) start)) x). split; [lia|].
+  replace (Z.to_nat (norm_start (len l) start) + Z.to_nat (p - norm_start (len l) start))%nat with (Z.to_nat p) by lia.
+  exact Hn.
+Qed.
+
+Theorem index_range_total l x start stop :
+  (exists q, index_range l x start stop = OInt q) \/ index_range l x start stop = OErr ValueError.
+Proof. unfold index_range. apply index_from_total. Qed.
+
+(* on a set (no duplicates) the result is THE position of the value *)
+Theorem index_range_exact l x start stop p : NoDup l -> 0 <= p ->
+  norm_start (len l) start <= p < norm_stop (len l) stop -> nth_error l (Z.to_nat p) = Some x ->
+  index_range l x start stop = OInt p.
+Proof.
+  intros Hnd Hp0 Hp Hn.
+  destruct (index_range_complete l x start stop p Hp Hn) as [q Hq]. rewrite Hq. f_equal.
+  destruct (index_range_sound l x start stop q Hq) as [Hqr Hqn].
+  pose proof (norm_start_nonneg (len l) start ltac:(unfold len; lia)) as Ha.
+  assert (Z.to_nat q = Z.to_nat p) as E.
+  { apply (proj1 (NoDup_nth_error l) Hnd); [apply nth_error_Some; congruence|congruence]. }
+  lia.
+Qed.
+
 (* ---------- set queries ---------- *)
 Lemma subset_spec a b : subset a b = true <-> (forall x, In x a -> In x b).
 Proof.
